@@ -130,7 +130,7 @@ func opExprTokens(o hop) hclwrite.Tokens {
 	case opSetTrav:
 		return hclwrite.TokensForTraversal(o.traversal())
 	case opSetRaw:
-		return lexTokens(o.Raw)
+		return rawRefTokens(o)
 	}
 	return nil
 }
